@@ -360,6 +360,14 @@ def run_tasks(tasks, jobs=None):
     jobs = jobs or C.NCPU
     if not tasks:
         return []
+    oids = [t['oid'] for t in tasks]
+    if len(set(oids)) != len(oids):
+        seen, dup = set(), []
+        for o in oids:
+            if o in seen:
+                dup.append(o)
+            seen.add(o)
+        raise C.HarnessError('query ids are not unique: %r' % dup[:5])
     # solver cross-check on a sample: every k-th task re-decides up to n of its 'unsat' answers with two other solvers
     tier = os.environ.get('VF_TIER', 'quick')
     every = int(os.environ.get('VF_XCHECK_EVERY', '12' if tier == 'quick' else '4'))
